@@ -209,12 +209,31 @@ Definition alg_id (o : list N) : bytes := der_seq (der_oid o ++ der_null).
 
 Definition attr (o : list N) (value : bytes) : bytes := der_seq (der_oid o ++ der_set value).
 
-(* Attributes.Marshal: contentType, signingTime (if any), messageDigest, others *)
+(* DER orders the elements of a SET OF by their encodings: bytes.Compare *)
+Fixpoint bytes_ltb (a b : bytes) : bool :=
+  match a, b with
+  | [], [] => false
+  | [], _ :: _ => true
+  | _ :: _, [] => false
+  | x :: a', y :: b' => if b2n x <? b2n y then true else if b2n y <? b2n x then false else bytes_ltb a' b'
+  end.
+(* sort.SliceStable *)
+Fixpoint insert_b (x : bytes) (l : list bytes) : list bytes :=
+  match l with
+  | [] => [x]
+  | y :: r => if bytes_ltb y x then y :: insert_b x r else x :: l
+  end.
+Definition sort_b (l : list bytes) : list bytes := fold_right insert_b [] l.
+
+(* Attributes.Marshal (as repaired): contentType, signingTime (if any), messageDigest
+   and the others, in the order of their encodings *)
+Definition attr_list (ctype : list N) (time : option bytes) (md : bytes) (others : list (list N * bytes)) : list bytes :=
+  attr OID_attr_contentType (der_oid ctype) ::
+  (match time with Some t => [attr OID_attr_signingTime (add_asn1 T_UTCTIME t)] | None => [] end) ++
+  attr OID_attr_messageDigest (der_octets md) ::
+  map (fun ov => attr (fst ov) (snd ov)) others.
 Definition attrs_body (ctype : list N) (time : option bytes) (md : bytes) (others : list (list N * bytes)) : bytes :=
-  attr OID_attr_contentType (der_oid ctype) ++
-  (match time with Some t => attr OID_attr_signingTime (add_asn1 T_UTCTIME t) | None => [] end) ++
-  attr OID_attr_messageDigest (der_octets md) ++
-  flat_map (fun ov => attr (fst ov) (snd ov)) others.
+  concat (sort_b (attr_list ctype time md others)).
 Definition attrs_marshal ctype time md others : bytes := der_set (attrs_body ctype time md others).
 
 (* the SignedData SEQUENCE SignPKCS7 builds, given the signature the signer
